@@ -450,7 +450,7 @@ fn sweep_pairs(n: u64, partial: bool) -> Vec<(&'static str, Bm, Bm)> {
 }
 
 pub fn size_sweep(ctx: &Ctx, mode: Mode, total: &mut Part) -> Value {
-  let nmax: u64 = if ctx.quick() { 520 } else { 4200 };
+  let nmax: u64 = if ctx.quick() { 520 } else { 4000 }; // 4 * nmax < 4^7 (the interleaved runs stay inside the coarse cell)
   let partial = mode != Mode::Moc;
   let chunk = 8u64;
   let njobs = ((nmax + chunk - 1) / chunk) as usize;
